@@ -200,6 +200,12 @@ func (h *w5Harness) runPub(idx int, a *w5Actor) {
 		const frameMs = 100
 		for n := int64(0); n*frameMs < op.Ms && !p.closed.Fired(); n++ {
 			nalu := []byte{5, byte(n >> 16), byte(n >> 8), byte(n), 1, 2, 3, 4, 5, 6, 7, 8}
+			if op.BigAtMs > 0 && n == op.BigAtMs/frameMs {
+				// fault: a frame larger than hlsSegmentMaxSize (the muxer instance fails)
+				nalu = append(nalu, make([]byte, 100*1024)...)
+				simrt.Count("fault.hls.oversize-frame", 1)
+				simrt.Rec("pub.bigframe", p.name, a.Path, 0, 0, 0)
+			}
 			res.SubStream.WriteUnit(medi, medi.Formats[0], &unit.Unit{PTS: n * frameMs * 90, Payload: unit.PayloadH264{w5SPS, w5PPS, nalu}})
 			select {
 			case <-time.After(frameMs * time.Millisecond):
@@ -494,7 +500,16 @@ func (h *w5Harness) runAttacker(idx int, a *w5Actor) {
 			case "random":
 				r.query = "session=" + uuid.UUID{1, 2, 3, 4, 5, 6, 0x47, 8, 0x89, byte(idx), byte(n)}.String()
 			case "wrongcdn":
+				// an unrelated value, or a near miss of the configured secret
 				r.cdn = "not-the-secret"
+				if s := h.body.CDNSecret; s != "" {
+					near := []string{"not-the-secret", strings.ToUpper(s), strings.ToLower(s), s[:len(s)-1], s + "x", s[1:], "x" + s}
+					r.cdn = near[(idx+int(n))%len(near)]
+				}
+				// like a CDN, it asks for the multivariant playlist first
+				ri := *r
+				ri.file = "index.m3u8"
+				h.do(&ri)
 			case "cdn":
 				r.cdn = h.body.CDNSecret
 				ri := *r
@@ -562,7 +577,7 @@ func (h *w5Harness) main() {
 		SegmentCount:    3,
 		SegmentDuration: conf.Duration(time.Duration(h.body.SegmentMs) * time.Millisecond),
 		PartDuration:    conf.Duration(200 * time.Millisecond),
-		SegmentMaxSize:  50 * 1024 * 1024,
+		SegmentMaxSize:  w5SegmentMax(h.body.SegmentMaxKB),
 		CDNSecret:       h.body.CDNSecret,
 		ReadTimeout:     conf.Duration(10 * time.Second),
 		WriteTimeout:    conf.Duration(10 * time.Second),
@@ -621,4 +636,11 @@ func (w *w5World) Run(t *testing.T, sc *simrt.Scenario, cfg simrt.Config) simrt.
 	out.Abstract = []string{fmt.Sprintf("%s s%d r%d c%d", b.Variant, h.served, h.refused, h.created), res.Hash}
 	out.Extra = map[string]any{"served": h.served, "refused": h.refused, "sessions_created": h.created}
 	return out
+}
+
+func w5SegmentMax(kb int64) conf.StringSize {
+	if kb <= 0 {
+		return 50 * 1024 * 1024
+	}
+	return conf.StringSize(kb * 1024)
 }
